@@ -467,6 +467,8 @@ structure Env where
   prog : List (String × FunDef)
   globals : String → Option Val
   ext : Ext
+  /-- a class and its ancestors, for `isinstance` (default: a class has no ancestors) -/
+  mro : String → List String := fun c => [c]
 
 /-- computations: a decision tree of results -/
 def M (α : Type) := Tree (Except Err α)
@@ -600,6 +602,7 @@ def arith (op : BinOp) (a b : Val) : M Val :=
        | _, _ =>
          match op, a, b with
          | .add, .list x, .list y => M.pure (.list (x ++ y))
+         | .add, .str x, .str y => M.pure (.str (x ++ y))
          | _, _, _ => M.fail (.raise "TypeError"))
   | .div =>
     (match asNum a, asNum b with
@@ -632,6 +635,12 @@ def memList (x : Val) : List Val → M Bool
   | y :: ys => do
     let c ← liftE (primEq x y)
     if (← M.branch c) then M.pure true else memList x ys
+
+/-- the distinct items of a list in order of first occurrence (the keys of `dict.fromkeys(l)`) -/
+def dedupKeys (acc : List Val) : List Val → M (List Val)
+  | [] => M.pure acc
+  | x :: xs => do
+    if (← memList x acc) then dedupKeys acc xs else dedupKeys (acc ++ [x]) xs
 
 def dictGet (k : Val) : List Val → List Val → M (Option Val)
   | y :: ys, v :: vs => do
@@ -720,6 +729,9 @@ def builtin (fn : String) (args : List Val) : Option (M Val) :=
   | "sum", [.list l] => some (sumList (.int (.lit 0)) l)
   | "sum", [.list l, start] => some (sumList start l)
   | "cast", [_, v] => some (M.pure v)
+  | "dict.fromkeys", [.list l] => some (do
+      let ks ← dedupKeys [] l
+      M.pure (.dict ks (ks.map (fun _ => Val.none))))
   -- `isinstance(v, T)` for the built-in scalar types (`bool` is a subclass of `int`)
   | "isinstance", [v, .str "int"] => some (M.pure (.bool (.lit (match v with | .int _ => true | .bool _ => true | _ => false))))
   | "isinstance", [v, .str "bool"] => some (M.pure (.bool (.lit (match v with | .bool _ => true | _ => false))))
@@ -783,12 +795,16 @@ def dunderOf : CmpOp → Option String
   | .eq => some "__eq__" | .ne => some "__ne__" | .lt => some "__lt__" | .le => some "__le__"
   | .gt => some "__gt__" | .ge => some "__ge__" | _ => Option.none
 
+/-- the definition of method `m` for an object of class `c`: the first one along `env.mro c` -/
+def lookupMethod (env : Env) (c m : String) : Option FunDef :=
+  (env.mro c).findSome? (fun k => lookupFun (k ++ "." ++ m) env.prog)
+
 /-- the translated method `name` of the class of the object `a`, if `a` is an object with one -/
 def userMethod (env : Env) (st : St) (a : Val) (name : Option String) : Option FunDef :=
   match a, name with
   | .ref addr, some d =>
     (match st.heap addr "__class__" with
-     | some (.str c) => lookupFun (c ++ "." ++ d) env.prog
+     | some (.str c) => lookupMethod env c d
      | _ => Option.none)
   | _, _ => Option.none
 
@@ -917,10 +933,10 @@ def eval (env : Env) : Nat → Expr → Vars → St → M (Val × St)
            let (ks, st) ← evalList env n kwVals vars st
            match g, as with
            | "len", [.ref a] => callMethod env n (.ref a) "__len__" [] [] st     -- `len(obj)` is `obj.__len__()`
-           -- `isinstance(obj, C)` for an object and a class given by name: the object's class is `C`
-           -- (no subclass of the classes asked about this way — `Order`, `Cancel` — is modelled)
+           -- `isinstance(obj, C)` for an object and a class given by name: `C` is the object's class or one of
+           -- its ancestors (`env.mro`, generated from the class statements of the source)
            | "isinstance", [.ref a, .str c] =>
-             M.pure (.bool (.lit (match st.heap a "__class__" with | some (.str c') => c' == c | _ => false)), st)
+             M.pure (.bool (.lit (match st.heap a "__class__" with | some (.str c') => (env.mro c').contains c | _ => false)), st)
            | _, _ =>
            match builtin g as with
            | some r => do M.pure ((← r), st)
@@ -1113,7 +1129,7 @@ def getAttr (env : Env) : Nat → Val → String → St → M (Val × St)
       | Option.none =>
         match st.heap addr "__class__" with
         | some (.str c) =>
-          (match lookupFun (c ++ "." ++ a) env.prog with
+          (match lookupMethod env c a with
            | some fd =>
              if fd.isProperty then callFun env n fd [v] [] [] st
              else M.fail (.unsupported "bound method as a value")
@@ -1131,7 +1147,7 @@ def callMethod (env : Env) : Nat → Val → String → List Val → List (Strin
       | .ref addr =>
         (match st.heap addr "__class__" with
          | some (.str c) =>
-           (match lookupFun (c ++ "." ++ m) env.prog with
+           (match lookupMethod env c m with
             | some fd => callFun env n fd (rv :: as) kws [] st
             | Option.none => callExt env rv m (as ++ kws.map (·.2)) st)
          | _ => callExt env rv m (as ++ kws.map (·.2)) st)
@@ -1237,6 +1253,21 @@ def exec (env : Env) : Nat → Stmt → Vars → St → M (Flow × Vars × St)
         let (_, st) ← eval env n (.call (.attr target "append") [arg] [] []) vars st
         M.pure (.normal, vars, st)
       | _ => M.fail (.unsupported "append on this value")
+    | .expr (.call (.attr target "extend") [arg] [] []) => do
+      -- `xs.extend(ys)` on a list held in a variable / field: `xs = xs + list(ys)` (same caveat as `append`)
+      let (c, st) ← eval env n target vars st
+      match c with
+      | .list l => do
+        let (v, st) ← eval env n arg vars st
+        match v with
+        | .list l2 => do
+          let (vars, st) ← store env n target (.list (l ++ l2)) vars st
+          M.pure (.normal, vars, st)
+        | _ => M.fail (.unsupported "extend by this value")
+      | .ref _ => do
+        let (_, st) ← eval env n (.call (.attr target "extend") [arg] [] []) vars st
+        M.pure (.normal, vars, st)
+      | _ => M.fail (.unsupported "extend on this value")
     | .expr (.call (.attr target "remove") [arg] [] []) => do
       let (c, st) ← eval env n target vars st
       match c with
